@@ -154,7 +154,7 @@ class PySersicResults():
         var_names = list( data.posterior.data_vars )
         
         for var in var_names:
-            if 'theta' in var:
+            if 'theta' in var and not ('poly_coeff' in var or 'bspl_w' in var):
                 new_theta = np.remainder(data['posterior'][var]+np.pi, np.pi)
                 data['posterior'][var] = new_theta
 
